@@ -137,6 +137,12 @@ def respond (line : String) : String :=
       let d := Commit.decide { before := b, after := a, stdoutSize := sz, tmpExists := tmp == "1", rv := rv, renameFails := rf == "1" }
       "ops=" ++ ",".intercalate (d.ops.map showOp) ++ " rv=" ++ toString d.rv ++ " ok=" ++ toString d.recordedOk
     | _, _, _, _ => "bad-op"
+  | ["commit-decide", b, a, sz, tmp, rv, rf, cf] =>
+    match decStat b, decStat a, sz.toNat?, rv.toInt? with
+    | some b, some a, some sz, some rv =>
+      let d := Commit.decide { before := b, after := a, stdoutSize := sz, tmpExists := tmp == "1", rv := rv, renameFails := rf == "1", createFails := cf == "1" }
+      "ops=" ++ ",".intercalate (d.ops.map showOp) ++ " rv=" ++ toString d.rv ++ " ok=" ++ toString d.recordedOk
+    | _, _, _, _ => "bad-op"
   | ["deps-run", d, n, rules, ops] => DepsWire.respond d n rules ops
   | ["core-run", n, graph, ops] => CoreWire.respond n graph ops
   | ["tokens-replay", k, evs] => TokensWire.respond k evs
